@@ -38,7 +38,7 @@ impl Profile {
             pairs: false,
             retain_panic: false,
             obs_every: 25,
-            tree_every: 5,
+            tree_every: 1,
             obs_only: false,
             with_set: false,
         };
